@@ -99,8 +99,23 @@ def cargo_layouts(ck):
     shutil.copy(os.path.join(REPO, "Cargo.lock"), os.path.join(d3, "Cargo.lock"))
     open(os.path.join(d3, "src", "main.rs"), "w").write('fn main() { println!("BEGIN\\n{}\\nEND", lib_ext::fail_here()); }\n')
     layouts.append(("path-dependency-outside-the-workspace", d3, ["run", "-q"], None))
+    # members reached through symbolic links: cargo spells CARGO_MANIFEST_DIR and file!() through the link, the real directory is named differently
+    d4 = os.path.join(base, "links", "ws")
+    store = os.path.join(base, "links", "store", "pkg-0.1.0")
+    shared = os.path.join(base, "links", "shared", "packages")
+    ws_root(d4, ["linked", "crates/x"])
+    pkg(store, "m_linked")
+    open(os.path.join(store, "src", "main.rs"), "w").write(MAIN)
+    os.symlink(os.path.relpath(store, d4), os.path.join(d4, "linked"))
+    pkg(os.path.join(shared, "x"), "m_crates_x")
+    open(os.path.join(shared, "x", "src", "main.rs"), "w").write(MAIN)
+    os.symlink(os.path.relpath(shared, d4), os.path.join(d4, "crates"))
+    layouts.append(("member-directory-is-a-symlink", d4, ["run", "-q", "-p", "m_linked"], None))
+    layouts.append(("member-under-a-symlinked-directory", d4, ["run", "-q", "-p", "m_crates_x"], None))
+    os.symlink(d, os.path.join(base, "member", "ws-link"))
+    layouts.append(("workspace-entered-through-a-symlink", os.path.join(base, "member", "ws-link"), ["run", "-q", "-p", "m_a"], None))
     if ck.tier == "quick":
-        layouts = [l for l in layouts if l[0] in ("single-package", "workspace-member", "nested-member", "integration-test-of-a-member", "path-dependency-outside-the-workspace", "package-dir-named-src", "member-named-like-the-workspace-dir")]
+        layouts = [l for l in layouts if l[0] in ("member-directory-is-a-symlink", "member-under-a-symlinked-directory", "single-package", "workspace-member", "nested-member", "integration-test-of-a-member", "path-dependency-outside-the-workspace", "package-dir-named-src", "member-named-like-the-workspace-dir")]
     env = dict(ENV)
     env["CARGO_TARGET_DIR"] = tdir
     dist = {}
@@ -116,9 +131,9 @@ def cargo_layouts(ck):
             if not shown:
                 ck.report(finding or ("cargo-layout:" + name), "the report of a failing assertion does not show the invoking file's source line in a crate layout built by cargo (%s)" % name,
                           dict(layout=name, cargo=" ".join(args), directory=cwd.replace(base, "<scratch>"), message=msg[:800]))
-        ck.corr_record("T3 crate layouts built by cargo (single package, workspace members at several depths, run from different directories, integration test, example, root package with members, path dependency outside the workspace, package directory named `src`): the report must show the source line",
+        ck.corr_record("T3 crate layouts built by cargo (single package, workspace members at several depths, run from different directories, integration test, example, root package with members, path dependency outside the workspace, package directory named `src`, members reached through symbolic links): the report must show the source line",
                        len(layouts), len(layouts), 0, dist, samples=[dict(layout=layouts[0][0])], exhaustive=True,
-                       rule="fixed list of layouts (7 in the quick tier, %d in the thorough tier), each built and run by cargo; CARGO_MANIFEST_DIR and file!() are whatever cargo and rustc provide" % (len(layouts) if ck.tier != "quick" else 13))
+                       rule="fixed list of layouts (9 in the quick tier, %d in the thorough tier), each built and run by cargo; CARGO_MANIFEST_DIR and file!() are whatever cargo and rustc provide" % (len(layouts) if ck.tier != "quick" else 13))
     finally:
         shutil.rmtree(base, ignore_errors=True)
 
